@@ -201,6 +201,28 @@ func (c *v7Cache) StartForward(ctx ml.Context, batch input.Batch, reserve bool) 
 	post := c.snapshot()
 	loc := c.Causal.VerifC07CurLoc()
 	n := len(batch.Positions)
+	if w := c.h.cfg.window; w > 0 {
+		// sliding window: entries older than (lowest batch position - window) leave their sequence in
+		// place (harness-side mirror, only used to tell eviction from defrag)
+		lowest := map[int]int{}
+		for i, p := range batch.Positions {
+			s := batch.Sequences[i]
+			if q, ok := lowest[s]; !ok || int(p) < q {
+				lowest[s] = int(p)
+			}
+		}
+		for i := range pre {
+			var keep []int
+			for _, s := range pre[i].seqs {
+				if lp, ok := lowest[s]; ok && pre[i].pos < lp-w {
+					c.h.out.Count("swa_evicted")
+					continue
+				}
+				keep = append(keep, s)
+			}
+			pre[i].seqs = keep
+		}
+	}
 	// the state just before the batch was stored (after a possible defrag)
 	mid := make([]v7Cell, len(post))
 	copy(mid, post)
@@ -260,6 +282,10 @@ func (c *v7Cache) Remove(seq int, beginIndex, endIndex int32) error {
 	}
 	if endIndex != math.MaxInt32 {
 		c.h.shiftedSlot[seq] = true // a context shift (or its failure path) touched this sequence
+	}
+	if c.h.cfg.window > 0 && endIndex != math.MaxInt32 && beginIndex < endIndex {
+		c.h.swaShifted[seq] = true
+		c.h.out.Count("swa_middle_remove")
 	}
 	if endIndex < beginIndex {
 		// the failure path's reset with an end index below the begin index (pinned code: -1)
@@ -373,6 +399,8 @@ type v7Cfg struct {
 	multi, canShift      bool
 	vocab, eosMod        int
 	stopEarliest         bool // which FindStop the tree has (probed on the real function)
+	crCounted            bool // which CanResume the tree has (probed on the real Causal)
+	window               int  // sliding window (0 = plain causal cache)
 }
 
 type v7Event struct {
@@ -422,6 +450,8 @@ type v7Harness struct {
 	shiftedSlot   map[int]bool // a context shift happened on this slot since its request was loaded
 	start         time.Time
 	tainted       map[int]bool
+	swaShifted    map[int]bool // a middle Remove (context shift) happened on a sliding-window cache
+	pastPrompts   [][]int
 	defragTainted map[int]bool
 
 	// per step
@@ -474,6 +504,9 @@ func (h *v7Harness) taintNote(seq int) string {
 	if h.defragTainted[seq] {
 		n += fmt.Sprintf(" [slot %d: after a defrag whose row movement does not match its cell movement]", seq)
 	}
+	if h.swaShifted[seq] {
+		n += fmt.Sprintf(" [slot %d: after a context shift (middle Remove) on a sliding-window cache]", seq)
+	}
 	return n
 }
 
@@ -502,10 +535,14 @@ func (h *v7Harness) checkExposed(bi, tok, pos, seq int, exp []v7Exp) {
 		}
 		return got[i].tok < got[j].tok
 	})
-	ok := len(got) == pos+1
+	lo := 0
+	if w := h.cfg.window; w > 0 && pos-w > 0 {
+		lo = pos - w // the model is shown the window [pos-w, pos]
+	}
+	ok := len(got) == pos+1-lo
 	if ok {
-		for k := 0; k <= pos; k++ {
-			if got[k].dpos != k || got[k].tok != eff[k] {
+		for k := lo; k <= pos; k++ {
+			if got[k-lo].dpos != k || got[k-lo].tok != eff[k] {
 				ok = false
 				break
 			}
@@ -517,12 +554,12 @@ func (h *v7Harness) checkExposed(bi, tok, pos, seq int, exp []v7Exp) {
 			gs = append(gs, fmt.Sprintf("%d@%d", g.tok, g.dpos))
 		}
 		cls := "wrong"
-		if len(got) > pos+1 {
+		if len(got) > pos+1-lo {
 			cls = "stale-or-duplicate-entries"
-		} else if len(got) < pos+1 {
+		} else if len(got) < pos+1-lo {
 			cls = "missing-entries"
 		}
-		h.l2("exposed-history", fmt.Sprintf("%s: seq %d pos %d sees [%s], effective input is %s%s", cls, seq, pos, strings.Join(gs, " "), v7Ints(eff[:pos+1]), h.taintNote(seq)))
+		h.l2("exposed-history", fmt.Sprintf("%s: seq %d pos %d sees [%s], effective input (from position %d) is %s%s", cls, seq, pos, strings.Join(gs, " "), lo, v7Ints(eff[lo:pos+1]), h.taintNote(seq)))
 	}
 }
 
@@ -559,6 +596,15 @@ func (h *v7Harness) checkCoherent(when string) {
 			}
 		}
 		for p, n := range count {
+			if w := h.cfg.window; w > 0 {
+				// sliding window: older entries may be gone; the window the next token needs must be
+				// there for a slot in use (a released slot is re-checked by CanResume when it is loaded)
+				need := sl.InUse && p >= len(rec)-w
+				if (n > 1 || (need && n != 1)) && bad == "" {
+					bad = fmt.Sprintf("position %d of the record (inside the window of the next position: %v) is stored %d times", p, need, n)
+				}
+				continue
+			}
 			if n != 1 && bad == "" {
 				bad = fmt.Sprintf("position %d of the record is stored %d times", p, n)
 			}
@@ -660,6 +706,8 @@ func (h *v7Harness) doReq(e *v7Event) string {
 			h.prompts[i] = prompt
 			h.gen[i] = nil
 			h.shiftedSlot[seq.cache.Id] = false
+			h.swaShifted[seq.cache.Id] = false // CanResume has just re-checked the window
+			h.pastPrompts = append(h.pastPrompts, append([]int(nil), e.prompt...))
 			// L2: slot exclusivity and soundness of the reused prefix
 			if inUseBefore[seq.cache.Id] {
 				h.l2("slot-exclusive", fmt.Sprintf("LoadCacheSlot handed out slot %d which was in use", seq.cache.Id))
@@ -721,6 +769,10 @@ func (h *v7Harness) doStep(e *v7Event) (string, bool) {
 				if t {
 					note = h.taintNote(s)
 				}
+			}
+			if w := h.cfg.window; w > 0 && w <= h.cfg.ctx {
+				note += fmt.Sprintf(" [sliding-window cache (window %d): Causal.Init sizes it maxSequences*window+maxBatch = %d cells, but every sequence keeps its window plus its last batch until its own next Forward]", w, h.cfg.parallel*w+h.cfg.batch)
+				h.out.Count("step_err_kv_full_swa")
 			}
 			h.l2("forward-error", "processBatch failed (the runner panics on this): "+err.Error()+note)
 		} else {
@@ -794,9 +846,12 @@ func (h *v7Harness) finish(i int) {
 	}
 	hist := append([]int(nil), h.prompts[i]...)
 	for k, g := range h.gen[i] {
-		exp := make([]v7Exp, len(hist))
+		var exp []v7Exp
 		for p, t := range hist {
-			exp[p] = v7Exp{t, p}
+			if w := h.cfg.window; w > 0 && p < len(hist)-1-w {
+				continue // outside the window of the last position
+			}
+			exp = append(exp, v7Exp{t, p})
 		}
 		want := v7Next(&h.cfg, exp)
 		if want != g {
@@ -810,12 +865,16 @@ func (h *v7Harness) finish(i int) {
 }
 
 func v7NewHarness(cfg v7Cfg, out *zzverif.Out) *v7Harness {
-	h := &v7Harness{cfg: cfg, out: out, tainted: map[int]bool{}, defragTainted: map[int]bool{}, shiftedSlot: map[int]bool{}}
+	h := &v7Harness{cfg: cfg, out: out, tainted: map[int]bool{}, swaShifted: map[int]bool{}, defragTainted: map[int]bool{}, shiftedSlot: map[int]bool{}}
 	var shift func(ctx ml.Context, layer int, key, shift ml.Tensor) (ml.Tensor, error)
 	if cfg.canShift {
 		shift = v7Shift
 	}
-	h.cache = &v7Cache{Causal: kvcache.NewCausalCache(shift), h: h}
+	if cfg.window > 0 {
+		h.cache = &v7Cache{Causal: kvcache.NewSWACache(int32(cfg.window), shift), h: h}
+	} else {
+		h.cache = &v7Cache{Causal: kvcache.NewCausalCache(shift), h: h}
+	}
 	m := &v7Model{Base: model.NewVerifC07Base(&v7Backend{}, h.cache), h: h}
 	ic, err := NewInputCache(m, "", int32(cfg.parallel*cfg.ctx), cfg.parallel, cfg.batch, cfg.multi)
 	if err != nil {
@@ -846,7 +905,7 @@ func (h *v7Harness) header(n int) string {
 		return 0
 	}
 	c := h.cfg
-	return fmt.Sprintf("hist %d %d %d %d %d %d %d %d %d %d", c.resetEnd, c.parallel, c.ctx, c.batch, b(c.multi), b(c.canShift), c.vocab, c.eosMod, b(c.stopEarliest), n)
+	return fmt.Sprintf("hist %d %d %d %d %d %d %d %d %d %d %d %d", c.resetEnd, c.parallel, c.ctx, c.batch, b(c.multi), b(c.canShift), c.vocab, c.eosMod, b(c.stopEarliest), b(c.crCounted), c.window, n)
 }
 
 // run executes events drawn from next() until it returns nil or a step fails.
@@ -917,8 +976,23 @@ func v7ProbeStop() bool {
 	return st == "ab"
 }
 
+// v7ProbeCanResume asks the real Causal whether CanResume counts the entries present in the window
+// of the resume position (commit 86ff119f0) or only compares window starts.
+func v7ProbeCanResume() bool {
+	c := kvcache.NewSWACache(2, nil)
+	c.Init(&v7Backend{}, ml.DTypeF16, 1, 8, 4)
+	ctx := &v7Context{}
+	if err := c.StartForward(ctx, input.Batch{Positions: []int32{3, 4}, Sequences: []int{0, 0}}, false); err != nil {
+		panic(err)
+	}
+	return !c.CanResume(0, 4) // position 2 of the window [2,4) is missing
+}
+
 func v7GenCfg(r *zzverif.Rng, resetEnd int) v7Cfg {
-	c := v7Cfg{resetEnd: resetEnd, stopEarliest: v7ProbeStop()}
+	c := v7Cfg{resetEnd: resetEnd, stopEarliest: v7ProbeStop(), crCounted: v7ProbeCanResume()}
+	if r.Chance(2, 5) {
+		c.window = r.Range(1, 8)
+	}
 	c.parallel = r.Range(1, 4)
 	c.ctx = r.Pick3(4, 12, 64)
 	c.batch = zzverif.Pick(r, []int{1, 1, 2, 3, 4, 8, 16})
@@ -946,16 +1020,24 @@ func (h *v7Harness) genPrompt(r *zzverif.Rng, bases [][]int) []int {
 		b := zzverif.Pick(r, bases)
 		p = append([]int(nil), b[:r.Range(1, len(b))]...)
 		p = append(p, randToks(r.Intn(4))...)
-	case 5: // exact repeat of a base
-		p = append([]int(nil), zzverif.Pick(r, bases)...)
+	case 5: // exact repeat of an earlier prompt (or of a base)
+		if len(h.pastPrompts) > 0 && r.Chance(3, 4) {
+			p = append([]int(nil), zzverif.Pick(r, h.pastPrompts)...)
+		} else {
+			p = append([]int(nil), zzverif.Pick(r, bases)...)
+		}
 	case 6, 7, 8: // follow-up turn: some slot's record (prompt + answer) + new suffix / or exactly it / or a prefix of it
 		sl := &h.srv.cache.slots[r.Intn(len(h.srv.cache.slots))]
 		p = v7Toks(sl.Inputs)
-		switch r.Intn(4) {
+		switch r.Intn(5) {
 		case 0:
 		case 1:
 			if len(p) > 1 {
 				p = p[:r.Range(1, len(p))]
+			}
+		case 2: // the record minus its last k inputs (an exact repeat after k cached generated tokens)
+			if k := r.Range(1, 3); len(p) > k {
+				p = p[:len(p)-k]
 			}
 		default:
 			p = append(p, randToks(r.Range(1, 4))...)
@@ -1049,6 +1131,12 @@ func (h *v7Harness) stats() {
 	if !c.canShift {
 		h.out.Count("cfg_noshiftfn")
 	}
+	if c.window > 0 {
+		h.out.Count("cfg_swa")
+		if c.window < c.ctx {
+			h.out.Count("cfg_swa_window_lt_ctx")
+		}
+	}
 	for _, t := range h.tainted {
 		if t {
 			h.out.Count("histories_with_failed_shift_reset")
@@ -1061,7 +1149,7 @@ func (h *v7Harness) stats() {
 
 func v7ParseHist(line string) (v7Cfg, []*v7Event) {
 	f := strings.Fields(line)
-	if len(f) < 11 || f[0] != "hist" {
+	if len(f) < 13 || f[0] != "hist" {
 		panic("bad hist line")
 	}
 	at := func(i int) int {
@@ -1072,8 +1160,9 @@ func v7ParseHist(line string) (v7Cfg, []*v7Event) {
 		return v
 	}
 	c := v7Cfg{resetEnd: at(1), parallel: at(2), ctx: at(3), batch: at(4), multi: at(5) != 0, canShift: at(6) != 0, vocab: at(7), eosMod: at(8)}
-	n := at(10)
-	i := 11
+	c.window = at(11)
+	n := at(12)
+	i := 13
 	var evs []*v7Event
 	list := func() []int {
 		k := at(i)
@@ -1114,6 +1203,7 @@ func v7Replay(line string, resetEnd int, out *zzverif.Out) {
 	cfg, evs := v7ParseHist(line)
 	cfg.resetEnd = resetEnd
 	cfg.stopEarliest = v7ProbeStop()
+	cfg.crCounted = v7ProbeCanResume()
 	h := v7NewHarness(cfg, out)
 	k := 0
 	h.run(func() *v7Event {
